@@ -78,14 +78,8 @@ Lemma Kp_prepare_finished s0 f s : Kp s0 s -> Kp s0 (prepare_finished f s).
 Proof. intros H. kp_leaf s0. exact H. Qed.
 Lemma Kp_cancel_ s0 now s : Kp s0 s -> Kp s0 (cancel_ now s).
 Proof.
-  intros H. unfold cancel_.
-  assert (H1 : Kp s0 (upd_nak (c_pause now) (set_r_phase RCancelled s))) by (kp_leaf s0; exact H).
-  destruct (cfg_mode _); [|destruct (closure _)]; cbn [r_cfg upd_nak set_r_timer set_r_phase].
-  - kp_leaf s0. exact H.
-  - eapply (Kp_ext s0 (shutdown now (prepare_finished None (upd_nak (c_pause now) (set_r_phase RCancelled s)))));
-      [ apply Kp_shutdown; apply Kp_prepare_finished; exact H1 | reflexivity .. ].
-  - eapply (Kp_ext s0 (shutdown now (upd_nak (c_pause now) (set_r_phase RCancelled s))));
-      [ apply Kp_shutdown; exact H1 | reflexivity .. ].
+  intros H. unfold cancel_. cbv zeta.
+  destruct (cfg_mode _); [|destruct (closure _)]; kp_leaf s0; exact H.
 Qed.
 Lemma Kp_handle_fault s0 now c s : Kp s0 s -> Kp s0 (fst (handle_fault now c s)).
 Proof.
@@ -96,14 +90,20 @@ Proof.
 Qed.
 
 (* recursive solver: peel updates, apply callee lemmas *)
-Ltac kp_calls s0 :=
-  first [ apply Kp_shutdown | apply Kp_abandon | apply Kp_suspend | apply Kp_prepare_finished
-        | apply Kp_cancel_ | apply Kp_handle_fault ].
+Ltac kp_calls s0 _ :=
+  lazymatch goal with
+  | |- Kp s0 (shutdown _ _) => apply Kp_shutdown
+  | |- Kp s0 (abandon _ _) => apply Kp_abandon
+  | |- Kp s0 (suspend _ _) => apply Kp_suspend
+  | |- Kp s0 (prepare_finished _ _) => apply Kp_prepare_finished
+  | |- Kp s0 (cancel_ _ _) => apply Kp_cancel_
+  | |- Kp s0 (fst (handle_fault _ _ _)) => apply Kp_handle_fault
+  end.
 Ltac kp s0 :=
   lazymatch goal with
   | |- Kp s0 ?t =>
       first [ assumption | apply Kp_refl
-            | kp_calls s0; kp s0
+            | kp_calls s0 tt; kp s0
             | let b := strip_r t in
               tryif constr_eq b t then fail
               else first [ eapply (Kp_ext s0 b); [ kp s0 | reflexivity .. ]
@@ -228,7 +228,7 @@ Proof.
   intros H. cbn zeta. unfold Recv.rstep.
   assert (H0 : not_recv (set_r_out [] s)) by (unfold not_recv in *; cbn; assumption).
   destruct o; cbn [fst].
-  - destruct (process_pdu_frozen now p (set_r_out [] s) H0) as (A & B & C & _). cbn in A, C. auto.
+  - destruct (process_pdu_frozen now p (set_r_out [] s) H0) as (A & B & C). cbn in A, C. auto.
   - destruct (has_pdu_to_send _).
     + destruct (keeps_send_pdu now (set_r_out [] s)) as (A & B & C & _). cbn in A, C. auto.
     + unfold not_recv in *; cbn; auto.
